@@ -551,8 +551,26 @@ def check(run: Run) -> None:
                 run.finding("C13.q", f"TSInputView::reference:empty-decided-by-validity:{c[:60]}", f"TSInputView::reference returns an EMPTY reference when `{c[:140]}`: emptiness must follow "
                             "boundness (`!target.bound()`, `!inner->bound()`) - a bound target that has not ticked yet is still the thing the reference points at", loc=fa.loc(s0))
 
+    with run.obligation("C13.r", "K9", "the alternative (to-REF / from-REF adapter) an output keeps per consumer shape is keyed by the WHOLE identity of the source position: key_for "
+                        "fills every member of AlternativeKey (owning output, storage type, data pointer, requested schema) from the source it is asked about - sibling children "
+                        "of one fixed-structure output share the data pointer and differ only in the storage type, so a key without it gives two references to siblings one "
+                        "shared adapter and both consumers read whichever sibling was bound last"):
+        ALTH = "include/hgraph/types/time_series/ts_output/alternative.h"
+        st = run.tree.struct(ALTH, "AlternativeKey") if hasattr(run.tree, "struct") else None
+        fields = [f.name for f in st.fields] if st is not None else ["source_output", "source_type", "source_data", "requested_schema"]
+        fa = R.fn(run, ALT, "TSOutputAlternativeStore::key_for")
+        inits = [n_ for n_ in fa.body.walk() if isinstance(n_, C.Init)]
+        run.sites(len(inits), 1, "AlternativeKey initialiser")
+        slots = R.designated_slots(inits[0])
+        run.count(1, "C13.r")
+        miss = [f for f in fields if f not in slots]
+        if miss or len(fields) < 4:
+            run.finding("C13.r", f"key_for:alternative-key-fields-not-filled:{'+'.join(miss)}", f"TSOutputAlternativeStore::key_for leaves {miss} of AlternativeKey at their default "
+                        f"(filled: {sorted(slots)}): positions that differ only in those fields share one alternative", loc=fa.loc(inits[0]))
+
 
 VARIANTS = [
+    {"id": "r-seed-C13-9-alternative-key-without-storage-type", "expect": "C13.r", "edits": [{"file": ALT, "find": "            .source_type      = source.storage_type(),\n", "replace": ""}]},
     {"id": "q-seed-C13-7-empty-reference-while-target-has-no-value", "expect": "C13.q", "edits": [{"file": BASE, "find": "                if (inner != nullptr && !inner->bound())", "replace": "                if (inner != nullptr && !target_data.has_current_value())"}]},
     {"id": "c-revert-fix-F-C04-2-shortcut-at-any-position-any-cycle", "expect": "C13.c", "edits": [{"file": BASE, "find": "            if (data_.is_target_root())\n            {\n                const auto *link = data_.link_storage();\n                if (link != nullptr && link->tracking.last_modified_time == evaluation_time_ &&\n                    link->tracking.last_modified_time > data.last_modified_time())", "replace": "            if (is_target_position())\n            {\n                const auto *link = data_.link_storage();\n                if (link != nullptr && link->tracking.last_modified_time > data.last_modified_time())"}]},
     {"id": "c-shortcut-not-keyed-on-cycle", "expect": "C13.c", "edits": [{"file": BASE, "find": "                if (link != nullptr && link->tracking.last_modified_time == evaluation_time_ &&\n                    link->tracking.last_modified_time > data.last_modified_time())\n                {\n                    return data.value();", "replace": "                if (link != nullptr && link->tracking.last_modified_time > data.last_modified_time())\n                {\n                    return data.value();"}]},
